@@ -363,6 +363,15 @@ func Harness_C05_Adjudicate() {
 	np, fm := nondetInt("np"), nondetInt("fm")
 	verifAssume(np >= 0 && np < 1000 && fm >= 1 && fm < 100000)
 	b := NewBoard(&ZobristTable{}, toPosition(r), turn, np, fm)
+	// whatever was flagged before (nothing, undecided, or a draw that play continued past)
+	switch nondetU8("prior") & 3 {
+	case 1:
+		b.result = Result{Outcome: Undecided}
+	case 2:
+		b.result = Result{Outcome: Draw, Reason: Repetition3}
+	case 3:
+		b.result = Result{Outcome: Draw, Reason: NoProgress}
+	}
 	verifReach("adjudicate")
 	res := b.AdjudicateNoLegalMoves()
 	inCheck := refAttacked(r, turn.Opponent(), refKingSq(r, turn))
